@@ -5,7 +5,8 @@
    "ring"/"field": Section hypotheses, closed at Qc below. *)
 From Coq Require Import Permutation.
 From Amgcl Require Import Scalar QcInst Vec Crs KernelsProofs DirectUtil CuthillMcKee Direct Inverse StaticMat Qr DirectSpec
-     CuthillMcKeeProofs DirectProofs InverseProofs StaticMatProofs CroutProofs InverseExact QrProofs.
+     CuthillMcKeeProofs DirectProofs InverseProofs StaticMatProofs CroutProofs InverseExact QrProofs
+     QrMathAlg QrMathRefl QrMathCompute QrMathFactor QrMathSolve QrMathMain QrMathLsq QrMathR QrMathEx.
 Local Open Scope S_scope.
 
 (* ------------------------------------------------------------------------------------ *)
@@ -255,20 +256,8 @@ Theorem C16_qr_factorize_junk_independent (S : Scalar) m n rs cs (A q q' : vec S
 Proof. exact (qr_factorize_junk_independent m n rs cs A q q'). Qed.
 Print Assumptions C16_qr_factorize_junk_independent.
 
-(* A6 QR, correctness.
-   FULL STATEMENT (unproved; needs a scalar with a TRUE square root, e.g. R):
-   Section hypotheses: Sfield S, total order compatible with the field, sabs x = |x|,
-     forall x, 0 <= x -> ssqrt x * ssqrt x = x /\ 0 <= ssqrt x, sadj = id.
-   forall m n rs cs A q, (rs, cs) in {(n,1), (1,m)} -> length A = m*n -> length q = m*n ->
-     let '(A', tau, Q) := qr_factorize m n rs cs A q in let k := min m n in
-     (forall i j, i < m -> j < n -> sumn (fun l => qr_Q rs cs Q i l * qr_R rs cs A' l j) k = A[i*rs + j*cs]) /\
-     (forall i j, i < k -> j < k -> sumn (fun l => qr_Q rs cs Q l i * qr_Q rs cs Q l j) m = delta i j) /\
-     (forall i j, j < i -> qr_R rs cs A' i j = 0);
-   B: qr_solve returns the least-squares (m >= n) / minimum-norm (m < n) solution for full rank.
-   Status: Qr.v is an executable model of qr.hpp; the implementation instantiated with the exact
-   rationals and the pseudo-root agrees with it digit for digit (correspondence), and the binary64
-   build satisfies the residual oracles |A-QR|, |Q'Q-I| <= 1e-10*scale, R upper triangular,
-   solve = least squares / minimum norm (TESTED, not proved). *)
+(* A6 QR, correctness: proved at the end of this file (section QrCorrect, C16_qr_*), over any
+   field with the hypotheses that a real square root satisfies; closed at the reals R. *)
 
 (* ------------------------------------------------------------------------------------ *)
 (* closed instances at the exact rationals: no hypotheses left *)
@@ -347,4 +336,139 @@ Example C16_duplicate_entries_overwrite :
       DirectSpec.vec_eqb x [qc 3 1; qc (-1) 1] = true /\ DirectSpec.solves_b A x [qc 5 1; qc 0 1] = false
   | _ => False
   end.
+Proof. vm_compute. split; reflexivity. Qed.
+
+(* ------------------------------------------------------------------------------------ *)
+(* A6 QR, correctness (amgcl/detail/qr.hpp; model Qr.v).  Over ANY Scalar that is a field and whose
+   sadj / sabs / ssqrt satisfy what is TRUE of a real square root:
+     Hadj : sadj x = x                      (real scalars)
+     Habs : sabs x * sabs x = x * x
+     Hsqrt: ssqrt y * ssqrt y = y           for y a sum of squares (sos; the only arguments met)
+     Hreal: y + x*x = 0 -> y = 0            for y a sum of squares (formally real field)
+   Neither the sign of the root nor the sign choice of beta (sltb alpha 0) is used: they do not
+   matter for exactness.  The zero-column branch (xnorm2 = 0 => tau = 0, H = I) is covered: Hreal
+   shows that the column is then already zero below the diagonal.
+   Matrices are read through the strides of the storage order: row_major (n,1), col_major (1,m). *)
+Section QrCorrect.
+Variable S : Scalar.
+Hypothesis Sft : Sfield S.
+Hypothesis Seqb : seqb_spec S.
+Hypothesis Hadj : forall x : S, sadj x = x.
+Hypothesis Habs : forall x : S, sabs x * sabs x = x * x.
+Hypothesis Hsqrt : forall y : S, sos y -> ssqrt y * ssqrt y = y.
+Hypothesis Hreal : forall y x : S, sos y -> y + x * x = s0 -> y = s0.
+
+(* one step of compute(): the reflector H = I - tau v v' generated for column i (v = unit vector
+   stored below the diagonal) is symmetric, H H = I, orthogonal, and maps column i of the current
+   array to (.., beta, 0, .., 0): the entries above row i are kept, row i holds the new diagonal
+   entry, everything below is annihilated *)
+Theorem C16_qr_reflector (cm : bool) m n i (A : vec S) :
+  length A = (m * n)%nat -> i < m -> i < n ->
+  let rs := qr_rs cm m n in let cs := qr_cs cm m n in
+  let A2 := fst (compute_step m n rs cs i A) in
+  let t := snd (compute_step m n rs cs i A) in
+  let H := happ m t (vcol rs cs A2 i) in
+  (forall x y, dot m (H x) y = dot m x (H y)) /\
+  (forall x r, H (H x) r = x r) /\
+  (forall x y, dot m (H x) (H y) = dot m x y) /\
+  (forall r, r < m -> H (fun l => mv rs cs A l i) r = if Nat.ltb i r then s0 else mv rs cs A2 r i).
+Proof. exact (qr_reflector_correct Sft Seqb Hadj Habs Hsqrt Hreal cm m n i A). Qed.
+
+(* factorize(): Q R = A, Q'Q = I (k x k), R upper triangular, every stored reflector satisfies
+   tau = 0 or tau v'v = 2, and Q(i,j) is entry (i,j) of the product H_0 H_1 ... H_(k-1) of the stored
+   reflectors (0 in the columns k..n-1 of a wide matrix); whatever the member q held before *)
+Theorem C16_qr_factorize_correct (cm : bool) m n (A q : vec S) :
+  length A = (m * n)%nat -> length q = (m * n)%nat ->
+  let rs := qr_rs cm m n in let cs := qr_cs cm m n in
+  let A' := fst (fst (qr_factorize m n rs cs A q)) in
+  let tau := snd (fst (qr_factorize m n rs cs A q)) in
+  let Q := snd (qr_factorize m n rs cs A q) in
+  let k := Nat.min m n in
+  (forall i j, i < m -> j < n ->
+     sumn (fun l => qr_Q rs cs Q i l * qr_R rs cs A' l j) k = vget A (i * rs + j * cs)) /\
+  (forall i j, i < k -> j < k ->
+     sumn (fun l => qr_Q rs cs Q l i * qr_Q rs cs Q l j) m = if Nat.eqb i j then s1 else s0) /\
+  (forall i j, j < i -> qr_R rs cs A' i j = s0) /\
+  (forall j, j < k -> ReflOK m (vget tau j) (vcol rs cs A' j)) /\
+  (forall i j, i < m -> j < n ->
+     qr_Q rs cs Q i j = if Nat.ltb j k then hprod m (vget tau) (vcol rs cs A') k (delta j) i else s0).
+Proof. exact (qr_factorize_correct Sft Seqb Hadj Habs Hsqrt Hreal cm m n A q). Qed.
+
+(* solve(), rows >= cols: if R has no zero on its diagonal (full column rank) the result satisfies the
+   normal equations A'(A x - b) = 0, i.e. it is the least-squares solution *)
+Theorem C16_qr_solve_normal_equations (cm : bool) m n (A b : vec S) :
+  length A = (m * n)%nat -> m <= length b -> n <= m ->
+  let rs := qr_rs cm m n in let cs := qr_cs cm m n in
+  (forall i, i < n -> qr_R rs cs (fst (qr_compute m n rs cs A)) i i <> s0) ->
+  let x := qr_solve m n rs cs A b in
+  length x = n /\
+  forall c, c < n ->
+    sumn (fun r => vget A (r * rs + c * cs) *
+                   (sumn (fun j => vget A (r * rs + j * cs) * vget x j) n - vget b r)) m = s0.
+Proof. exact (qr_solve_tall_correct Sft Seqb Hadj Habs Hsqrt Hreal cm m n A b). Qed.
+
+(* solve(), rows < cols: if the R of A' has no zero on its diagonal (full row rank), A x = b and x is
+   orthogonal to the kernel of A, i.e. it is the minimum-norm solution *)
+Theorem C16_qr_solve_minimum_norm (cm : bool) m n (A b : vec S) :
+  length A = (m * n)%nat -> m <= length b -> m < n ->
+  let rs := qr_rs cm m n in let cs := qr_cs cm m n in
+  (forall i, i < m -> qr_R cs rs (fst (qr_compute n m cs rs A)) i i <> s0) ->
+  let x := qr_solve m n rs cs A b in
+  length x = n /\
+  (forall r, r < m -> sumn (fun c => vget A (r * rs + c * cs) * vget x c) n = vget b r) /\
+  (forall z : nat -> S, (forall r, r < m -> sumn (fun c => vget A (r * rs + c * cs) * z c) n = s0) ->
+     sumn (fun c => vget x c * z c) n = s0).
+Proof. exact (qr_solve_wide_correct Sft Seqb Hadj Habs Hsqrt Hreal cm m n A b). Qed.
+End QrCorrect.
+
+(* the hypotheses are satisfiable: closed instances at the real numbers of the standard library with
+   the true square root.  Print Assumptions lists the axioms of Coq's classical reals
+   (ClassicalDedekindReals.sig_forall_dec, sig_not_dec, functional_extensionality_dep). *)
+Theorem C16_qr_factorize_correct_R (cm : bool) m n (A q : vec RS) :
+  length A = (m * n)%nat -> length q = (m * n)%nat ->
+  let rs := qr_rs cm m n in let cs := qr_cs cm m n in
+  let A' := fst (fst (qr_factorize m n rs cs A q)) in
+  let Q := snd (qr_factorize m n rs cs A q) in
+  let k := Nat.min m n in
+  (forall i j, i < m -> j < n ->
+     sumn (fun l => qr_Q rs cs Q i l * qr_R rs cs A' l j) k = vget A (i * rs + j * cs)) /\
+  (forall i j, i < k -> j < k ->
+     sumn (fun l => qr_Q rs cs Q l i * qr_Q rs cs Q l j) m = if Nat.eqb i j then s1 else s0) /\
+  (forall i j, j < i -> qr_R rs cs A' i j = s0).
+Proof. exact (qr_factorize_correct_R cm m n A q). Qed.
+Print Assumptions C16_qr_factorize_correct_R.
+
+(* least squares, literally: |A x - b|^2 <= |A z - b|^2 for every z *)
+Theorem C16_qr_solve_least_squares_R (cm : bool) m n (A b : vec RS) :
+  length A = (m * n)%nat -> m <= length b -> n <= m ->
+  let rs := qr_rs cm m n in let cs := qr_cs cm m n in
+  (forall i, i < n -> qr_R rs cs (fst (qr_compute m n rs cs A)) i i <> s0) ->
+  let x := qr_solve m n rs cs A b in
+  let a := fun r c => vget A (r * rs + c * cs) in
+  length x = n /\
+  (forall c, c < n -> sumn (fun r => a r c * (mulv n a (vget x) r - vget b r)) m = s0) /\
+  forall z : nat -> RS,
+    Rle (@nrm2 RS m (fun r => mulv n a (vget x) r - vget b r)) (@nrm2 RS m (fun r => mulv n a z r - vget b r)).
+Proof. exact (qr_solve_least_squares_R cm m n A b). Qed.
+Print Assumptions C16_qr_solve_least_squares_R.
+
+(* minimum norm, literally: A x = b and |x|^2 <= |z|^2 for every z with A z = b *)
+Theorem C16_qr_solve_minimum_norm_R (cm : bool) m n (A b : vec RS) :
+  length A = (m * n)%nat -> m <= length b -> m < n ->
+  let rs := qr_rs cm m n in let cs := qr_cs cm m n in
+  (forall i, i < m -> qr_R cs rs (fst (qr_compute n m cs rs A)) i i <> s0) ->
+  let x := qr_solve m n rs cs A b in
+  let a := fun r c => vget A (r * rs + c * cs) in
+  length x = n /\
+  (forall r, r < m -> mulv n a (vget x) r = vget b r) /\
+  forall z : nat -> RS, (forall r, r < m -> mulv n a z r = vget b r) -> Rle (@nrm2 RS n (vget x)) (@nrm2 RS n z).
+Proof. exact (qr_solve_min_norm_R cm m n A b). Qed.
+Print Assumptions C16_qr_solve_minimum_norm_R.
+
+(* non-vacuity over the exact rationals: a 3x2 matrix (both storage orders) whose column norms met by
+   the algorithm are perfect squares (3 and 3), so that the pseudo-root of QcS is exact on every
+   argument met: the model's Q and R satisfy Q R = A and Q'Q = I exactly (vm_compute) *)
+Example C16_qr_nonvacuous :
+  qr_check false 3 2 qr_ex_row (repeat (qc 7 1) 6) = true /\
+  qr_check true 3 2 qr_ex_col (repeat (qc 7 1) 6) = true.
 Proof. vm_compute. split; reflexivity. Qed.
